@@ -211,10 +211,10 @@ func (s *SencBox) ParseReadBox(perSampleIVSize byte, saiz *SaizBox) error {
 				s.SampleCount, perSampleIVSize, nrBytesLeft)
 		}
 		if perSampleIVSize == 0 {
-			s.IVs = make([]InitializationVector, 0)
-		} else {
-			s.IVs = make([]InitializationVector, 0, s.SampleCount)
+			// There is data in the box, so a zero IV size means more samples than bytes
+			return fmt.Errorf("senc: sample count %d does not fit in %d bytes", s.SampleCount, nrBytesLeft)
 		}
+		s.IVs = make([]InitializationVector, 0, s.SampleCount)
 		switch perSampleIVSize {
 		case 0:
 			// Nothing to do
